@@ -396,7 +396,7 @@ pub fn render_octal(
 		blank,
 		sign,
 		8,
-		if alt && iv != 0.0 { "0" } else { "" },
+		if alt && iv >= 1.0 { "0" } else { "" },
 		true,
 		false,
 	);
